@@ -265,8 +265,16 @@ pub fn streams(args: &[String]) {
             let _ = pest::verif::take_last();
             let r = guarded(|| vm.parse(start, inp).map(|_| ()));
             let view = pest::verif::take_last();
+            let uses_stack = text.contains("POP") || text.contains("PEEK") || text.contains("DROP");
             let v = match (r, view) {
                 (Ok(Ok(())), Some(v)) if v.ok && !v.limit_reached && v.queue.len() <= 400 => v,
+                (Err(_), _) if !uses_stack => {
+                    // a parse that panics (and not with the documented empty-stack panic of POP / PEEK) hands back no
+                    // stream at all: recorded as a stream that cannot be well formed
+                    ncases += 1;
+                    recs.push(json!({"start": start, "inp": cps(inp), "q": [{"k": "P", "p": 0, "r": "panic"}]}));
+                    continue;
+                }
                 _ => {
                     dropped += 1;
                     continue;
